@@ -12,6 +12,17 @@
 From HT Require Import Common.Bytes.
 Open Scope N_scope.
 
+(* Byte-string equality by structural recursion.  It replaces Common.Bytes.eqb_bytes in this
+   development: that one decides with list_eq_dec and carries proof terms, which makes the
+   evaluation of the file system maps (keys are long absolute paths with long common prefixes)
+   an order of magnitude slower under vm_compute.  Specification: Proofs.eqb_bytes_true. *)
+Fixpoint eqb_bytes (a b : bytes) : bool :=
+  match a, b with
+  | [], [] => true
+  | x :: a', y :: b' => (x =? y) && eqb_bytes a' b'
+  | _, _ => false
+  end.
+
 Definition SLASH : N := 47.
 Definition comp := bytes.
 Definition DOT1 : comp := [46].
@@ -385,5 +396,28 @@ Definition good_compb (c : comp) : bool :=
 Definition rooted_clean_b (s : bytes) : bool :=
   is_abs s && forallb good_compb (comps s) && eqb_bytes s (rooted_str (comps s)).
 
-(* lexically at or beneath root *)
+(* lexically at or beneath root, judged by path COMPONENTS: k is the root itself or continues
+   it with a separator (Proofs.inside_componentwise: for clean paths this is exactly "the
+   component list of k starts with the component list of root") *)
 Definition inside_b (root k : bytes) : bool := eqb_bytes k root || is_prefix (root ++ [SLASH]) k.
+
+(* what strings.HasPrefix(k, root) computes: the TEXT of k begins with the text of root.
+   Strictly weaker than [inside_b] (Properties.C11_text_prefix_strictly_weaker): root
+   /r/pub, k /r/pub.old/x. *)
+Definition text_prefixed_b (root k : bytes) : bool := is_prefix root k.
+
+(* an entry beside the root whose spelling merely begins with the root's spelling
+   (root "pub": "pub.old", "pub2", "pub-" and everything beneath them) *)
+Definition name_extends_b (root k : bytes) : bool := text_prefixed_b root k && negb (inside_b root k).
+
+(* the host location that a working directory reported to the client denotes: the root for
+   "/", otherwise the root followed by the reported text *)
+Definition under (root t : bytes) : bytes := if eqb_bytes t [SLASH] then root else root ++ t.
+
+(* commands that leave the host file system alone whatever their argument *)
+Definition readonly_cmd (c : cmd) : bool :=
+  match c with
+  | CPwd | CCwd _ | CCdup | CAppe | CRest _ | CRetr _ | CList _ | CNlst _ | CListNoData _
+  | CMdtm _ | CSize _ => true
+  | _ => false
+  end.
